@@ -43,6 +43,7 @@ class Ctx:
         self.nt: t.Set[bytes] = set()
         self._case: t.Any = None
         self._marked = False
+        self.extra_evaluations = 0  # a part that evaluates a batch of cases per check() call reports the rest here
 
     def event(self, label: str, n: int = 1) -> None:
         self.events[label] += n
@@ -236,7 +237,7 @@ def run_shard(prop_id: str, part_name: str, tier: str, seed: int, shard: int, ns
             part_name,
             shard,
             sseed,
-            state["n"],
+            state["n"] + ctx.extra_evaluations,
             state["skipped"],
             dict(ctx.events),
             ctx.nt,
